@@ -59,6 +59,8 @@ inductive X where
   | guardPtr                       -- `self.ptr` of the `DeallocOnDrop` guard
   | boxOut (p : X)                 -- `Box::from_raw(p.cast())` over the filled array
   | needsDrop (o : Obj)            -- `mem::needs_drop::<element type of o>()`
+  | shintVal (atEnd : Bool)        -- the `n` of `Some(n) = seq.size_hint()` (serde `SeqAccess`; up front / once full)
+  | shintAnd (atEnd : Bool) (g : X) -- `seq.size_hint()` is `Some(n)` and `g` holds of it
 deriving Repr
 
 inductive V where
@@ -116,6 +118,8 @@ inductive S where
                                               -- the environment of its creation (`env.take l0`) plus the source slot
   | pollMapS (l0 : Nat) (src : Obj) (clo : S) (k : S)
                                               -- `src_iter.map(clo).next().is_some()`
+  | seqFill (body : S) (k : S)                -- `for dst in build_iter { match seq.next_element()? { Some(el) => body, None => break } }`
+  | probeS (k : S)                            -- `let b = seq.next_element::<Dummy>()?.is_some();` (nothing is built)
   | callM2 (a b : X) (k : S)                  -- `let v = f(a, b);`: the caller's closure consumes both, returns a value
   | fillZipMapS (l0 : Nat) (a b : Obj) (clo : S) (body : S) (k : S)
                                               -- `destination.zip(a_iter.zip(b_iter).map(clo)).for_each(|(dst, v)| body)`:
@@ -173,6 +177,8 @@ structure CtxExt where
   allocOk : Bool := true      -- does the allocator succeed
   ndSelf : Bool := true       -- `mem::needs_drop::<T>()`
   ndOther : Bool := true      -- `mem::needs_drop::<B>()`
+  shint0 : Option Nat := none    -- `SeqAccess::size_hint()` before reading
+  shintEnd : Option Nat := none  -- … once `N` elements have been read
 deriving Repr
 
 structure Ctx where
@@ -324,6 +330,11 @@ def eval (c : Ctx) (env : List V) (st : St) : X → Option V
     | some .wild => some (.bool false)
     | _ => none
   | .guardPtr => st.ext.guard
+  | .shintVal e => (if e then c.ext.shintEnd else c.ext.shint0).map .nat
+  | .shintAnd e g =>
+    match (if e then c.ext.shintEnd else c.ext.shint0) with
+    | some _ => (boolOf (eval c env st g)).map .bool
+    | none => some (.bool false)
   | .needsDrop o =>
     match o with
     | .self => some (.bool c.ext.ndSelf)
@@ -379,6 +390,21 @@ def fillLoop (c : Ctx) (destFirst : Bool) (body : V → V → St → List Ev × 
       | (tr, r, st') => (.poll st.polls :: .take st.polls x :: tr, r, st')
     | .done => ([.poll st.polls], .ret .unit, { st with polls := st.polls + 1 })
     | .panic => ([.poll st.polls, .panic st.polls], .panicked, { st with polls := st.polls + 1 })
+
+/-- serde's `for dst in build_iter { match seq.next_element()? { Some(el) => body, None => break } }`:
+    `c.src` answers the `next_element` calls (`panic` stands for `Err(_)`, which `?` returns at once) -/
+def seqLoop (c : Ctx) (body : V → V → St → List Ev × R × St) : List V → St → List Ev × R × St
+  | [], st => ([], .ret .unit, st)
+  | d :: ds, st =>
+    match c.src st.polls with
+    | .yield x =>
+      match body d (.elem x) { st with polls := st.polls + 1 } with
+      | (tr, .ret _, st') =>
+        let r := seqLoop c body ds st'
+        (.poll st.polls :: .take st.polls x :: tr ++ r.1, r.2)
+      | (tr, r, st') => (.poll st.polls :: .take st.polls x :: tr, r, st')
+    | .done => ([.poll st.polls], .ret .unit, { st with polls := st.polls + 1 })
+    | .panic => ([.poll st.polls, .panic st.polls], .ret .err, { st with polls := st.polls + 1 })
 
 /-- `destination.zip(src_iter.map(clo)).for_each(body)`: per round one destination slot (polled
     first), the next slot of the source array (the `slice::Iter` inside the `Map`; `polls` is its
@@ -567,6 +593,22 @@ def exec (c : Ctx) : S → List V → St → List Ev × R × St
       | (tr, .ret _, st') => (tr, .ub, st')
       | r => r
     else exec c k (env ++ [.bool false]) st
+  | .seqFill body k, env, st =>
+    match seqLoop c (fun d v s => exec c body (env ++ [d, v]) s) (positions .out 0 st.out.slots.length) st with
+    | (tr, .ret .err, st') => (tr, .ret .err, st')
+    | (tr, .ret _, st') =>
+      let r := exec c k env st'
+      (tr ++ r.1, r.2)
+    | r => r
+  | .probeS k, env, st =>
+    match c.src st.polls with
+    | .yield _ =>
+      let r := exec c k (env ++ [.bool true]) { st with polls := st.polls + 1 }
+      (.poll st.polls :: r.1, r.2)
+    | .done =>
+      let r := exec c k (env ++ [.bool false]) { st with polls := st.polls + 1 }
+      (.poll st.polls :: r.1, r.2)
+    | .panic => ([.poll st.polls, .panic st.polls], .ret .err, { st with polls := st.polls + 1 })
   | .callM2 a b k, env, st =>
     match eval c env st a, eval c env st b with
     | some (.elem x), some (.elem y) =>
